@@ -579,3 +579,104 @@ Print Assumptions C13_constants_translated.
 Print Assumptions C13_section_translated.
 Print Assumptions C13_block_entity_translated.
 Print Assumptions C13_wire_translated.
+
+(* ==================== PHASE 5: loops, block entities of ChunkFromSave ==================== *)
+From GoMC Require Import Proofs.C13_entities Proofs.C13_skel_loops Proofs.C13_tie_save.
+
+(* the block-entity loop of ChunkFromSave: an entity whose chunk-relative coordinates are inside 0..15 is
+   converted - UnpackXZ of what PackXZ stored gives the coordinates back, Y, type and NBT are kept; any other
+   entity, and one whose {id,x,y,z} cannot be decoded, is an error *)
+Theorem C13_save_entities :
+  forall (be_fields : N * list N -> option (list N * Z * Z * Z)) (entity_type : list N -> Z) xpos zpos v id x y z,
+  be_fields v = Some (id, x, y, z) ->
+  let lx := be_local x xpos in let lz := be_local z zpos in
+  ((0 <= lx <= 15)%Z -> (0 <= lz <= 15)%Z ->
+     exists b, from_save_be be_fields entity_type xpos zpos v = SOk b /\
+       unpack_xz (e_xz b) = (lx, lz) /\ (-128 <= e_xz b < 128)%Z /\
+       e_y b = sx16 (u16 y) /\ ((-32768 <= y < 32768)%Z -> e_y b = y) /\
+       e_type b = entity_type id /\ (e_nt b, e_data b) = v) /\
+  (~ ((0 <= lx <= 15)%Z /\ (0 <= lz <= 15)%Z) -> from_save_be be_fields entity_type xpos zpos v = SErr).
+Proof. exact from_save_be_spec. Qed.
+(* its expressions are the translated ones; inside the game's coordinate range the local coordinate is x - 16 * pos *)
+Theorem C13_save_entities_translated : forall w pos y,
+  be_local w pos = c13_ChunkFromSave_x w pos /\ be_local w pos = c13_ChunkFromSave_z w pos /\
+  sx16 (u16 y) = c13_ChunkFromSave_entity_y y /\
+  ((-2^30 <= w < 2^30)%Z -> (-2^26 <= pos < 2^26)%Z -> be_local w pos = (w - 16 * pos)%Z).
+Proof.
+  intros. destruct (tie_be_local w pos) as [A B]. split; [exact A|]. split; [exact B|].
+  split; [apply tie_entity_y|apply be_local_plain].
+Qed.
+(* save -> level -> network -> level: position, height, type and NBT of a block entity are preserved *)
+Theorem C13_entity_save_wire :
+  forall (be_fields : N * list N -> option (list N * Z * Z * Z)) (entity_type : list N -> Z)
+         xpos zpos v id x y z t fuel oldv rest,
+  be_fields v = Some (id, x, y, z) ->
+  (0 <= be_local x xpos <= 15)%Z -> (0 <= be_local z zpos <= 15)%Z -> (-32768 <= y < 32768)%Z ->
+  (-2^31 <= entity_type id < 2^31)%Z ->
+  Model.C01.wf t -> Proofs.C01_dec.nest_ok t -> v = (Model.C01.tag_id t, Model.C01.payload t) ->
+  (List.length (snd v) < fuel)%nat ->
+  exists b, from_save_be be_fields entity_type xpos zpos v = SOk b /\
+    run_flat (be_read fuel oldv) (fst (be_write (bent_val b)) ++ rest) = FOk (bent_val b, lenN (fst (be_write (bent_val b)))) rest /\
+    unpack_xz (e_xz b) = (be_local x xpos, be_local z zpos) /\ e_y b = y /\ e_type b = entity_type id /\
+    (e_nt b, e_data b) = v.
+Proof. exact entity_save_wire. Qed.
+
+(* LOOPS: the model's loop steps ARE the statement-by-statement interpretation of the translated loop bodies *)
+Theorem C13_from_save_loop_interpretation : forall st_id bio_id is_air gs gb ypos secs v t acc,
+  (-128 <= ss_y v < 128)%Z -> (0 <= secs < 2^31)%Z ->
+  from_save_secs st_id bio_id is_air gs gb ypos secs (v :: t) acc =
+  match fs_iter st_id bio_id is_air gs gb ypos secs v with
+  | SOk s => match fs_section s with
+             | Some x => from_save_secs st_id bio_id is_air gs gb ypos secs t (upd_at acc (Z.to_nat (fs_i s)) (Some x))
+             | None => SPanic 98
+             end
+  | SErr => SErr
+  | SPanic w => SPanic w
+  end.
+Proof. exact from_save_secs_interp. Qed.
+Theorem C13_to_save_loop_interpretation : forall st_name bio_name ypos i v,
+  to_save_sec st_name bio_name ypos i v =
+  match interp_g (ts_step st_name bio_name i ypos v) (fun _ => None) (loop_body c13_ChunkToSave_body 2)
+                 (mkTS 0 [] [] [] [] None None) with
+  | SOk s => SOk (ts_section s)
+  | SErr => SErr
+  | SPanic w => SPanic w
+  end.
+Proof. exact to_save_sec_interp. Qed.
+Theorem C13_data_loops_interpretation :
+  forall (cont : Type) (pc_write : cont -> list N) (pc_read : bool -> cont -> dec (cont * N)),
+  (forall b d, robust (pc_read b d)) ->
+  (forall c : chunk cont, chunk_data cont pc_write c = fold_left (data_iter cont pc_write) (c_secs c) []) /\
+  (forall s t inp, run_flat (secs_read cont pc_read (s :: t)) inp =
+     run_flat (s' <- interp_d (putdata_step cont pc_read) (loop_body c13_Chunk_PutData_body 1) s ;;
+               t' <- secs_read cont pc_read t ;; Ret (s' :: t')) inp).
+Proof. intros. split; [apply chunk_data_interp|intros; apply secs_read_interp; assumption]. Qed.
+
+(* THE SAVE ROUND TRIP OF A SECTION OVER THE INTERPRETATION of the translated ChunkToSave and ChunkFromSave
+   loop bodies: the first produces a save section, the second, run on it, succeeds, computes slot i and builds
+   a section that agrees with the source at every position (all palette classes), light and recount included *)
+Theorem C13_save_translated :
+  forall st_name st_id bio_name bio_id is_air gs gb,
+  (forall v x, st_name v = Some x -> st_id x = Some v) ->
+  (forall v x, bio_name v = Some x -> bio_id x = Some v) ->
+  (9 <= gs <= 32)%Z -> (4 <= gb <= 32)%Z ->
+  forall ypos (n i : nat) s,
+  sec_inv st_name bio_name gs gb s -> (i < n)%nat -> (Z.of_nat n < 2^31)%Z ->
+  (-128 <= ypos)%Z -> (Z.of_nat n + ypos <= 128)%Z ->
+  exists ts fs s',
+    interp_g (ts_step st_name bio_name i ypos s) (fun _ => None) (loop_body c13_ChunkToSave_body 2)
+             (mkTS 0 [] [] [] [] None None) = SOk ts /\
+    fs_iter st_id bio_id is_air gs gb ypos (Z.of_nat n) (ts_section ts) = SOk fs /\
+    fs_i fs = Z.of_nat i /\ fs_section fs = Some s' /\ sec_same is_air s s'.
+Proof.
+  intros st_name st_id bio_name bio_id is_air gs gb H1 H2 H3 H4 ypos n i s Hs Hi Hn Hlo Hhi.
+  exact (save_section_translated st_name st_id bio_name bio_id is_air gs gb H1 H2 H3 H4 ypos n i s [] Hs Hi Hn Hlo Hhi).
+Qed.
+
+Print Assumptions C13_save_entities.
+Print Assumptions C13_save_entities_translated.
+Print Assumptions C13_entity_save_wire.
+Print Assumptions C13_from_save_loop_interpretation.
+Print Assumptions C13_to_save_loop_interpretation.
+Print Assumptions C13_data_loops_interpretation.
+Print Assumptions C13_save_translated.
